@@ -31,6 +31,7 @@ type Config struct {
 	L0Sublevels    bool   `json:"flushsplit,omitempty"`    // tiny FlushSplitBytes
 	BlockSize      int    `json:"blocksize,omitempty"`
 	WALFailover    bool   `json:"walfailover,omitempty"`
+	TableStats     bool   `json:"tablestats,omitempty"` // table statistics collection on (enables delete-only / elision-only compactions)
 }
 
 // Options builds pebble.Options for this configuration on fs.
@@ -50,7 +51,7 @@ func (c Config) Options(fs vfs.FS) *pebble.Options {
 		},
 		Logger: quietLogger{},
 	}
-	o.DisableTableStats = true
+	o.DisableTableStats = !c.TableStats
 	if c.DefaultCmp {
 		o.Comparer = pebble.DefaultComparer
 	}
